@@ -47,7 +47,9 @@ type oracles struct {
 
 	stateSigs map[string]bool
 
-	lastProcessed                                 []string
+	lastProcessed []string
+
+	importFailLeft, failedCreates                 int
 	importWasInFlight, cleanRestartImportInFlight bool
 	preRestart                                    *modelAt
 	inRestart                                     bool
@@ -63,7 +65,7 @@ type oracles struct {
 }
 
 func newOracles(s *Sim) *oracles {
-	return &oracles{s: s, prop: s.plan.Prop, held: map[int]*heldView{}, refCache: map[string][]*oracle.StreamSig{}, convSpawnAttached: map[int]map[string]bool{}, onDemand: map[string]bool{}, stateSigs: map[string]bool{}, firstSeen: map[string]string{}, changedAt: map[string][]int{}, flagged: map[string]bool{}}
+	return &oracles{importFailLeft: s.plan.ImportFail, s: s, prop: s.plan.Prop, held: map[int]*heldView{}, refCache: map[string][]*oracle.StreamSig{}, convSpawnAttached: map[int]map[string]bool{}, onDemand: map[string]bool{}, stateSigs: map[string]bool{}, firstSeen: map[string]string{}, changedAt: map[string][]int{}, flagged: map[string]bool{}}
 }
 
 // trigger names the kind of step at which a violation was first observed.
@@ -365,8 +367,23 @@ func (o *oracles) beforeBody(j *jobRec) {
 	if j.kind == simrt.KindConvert {
 		o.convJobActive = true
 	}
+	// disk error faults: the file system refuses to create index files
+	if j.kind == simrt.KindMerge && o.s.plan.MergeFail {
+		simrt.FailCreates(".idx", -1)
+	}
+	if j.kind == simrt.KindImport && o.importFailLeft > 0 {
+		simrt.FailCreates(".idx", 1)
+		o.importFailLeft--
+	}
 }
-func (o *oracles) afterBody(j *jobRec) {}
+
+func (o *oracles) afterBody(j *jobRec) {
+	simrt.FailCreates("", 0)
+	if n := simrt.FailedCreates(); n > o.failedCreates {
+		o.s.res.Count("fault_create_error_"+simrt.KindNames[j.kind], int64(n-o.failedCreates))
+		o.failedCreates = n
+	}
+}
 
 func (o *oracles) beforePost(j *jobRec) {
 	if o.s.plan.NoOracle {
